@@ -55,7 +55,8 @@ def match_finding(findings, prop, system, viol):
             continue
         if sig.get("system") not in (None, system):
             continue
-        if sig["oracle"] != viol["oracle"]:
+        oracles = sig["oracle"] if isinstance(sig["oracle"], list) else [sig["oracle"]]
+        if viol["oracle"] not in oracles:
             continue
         if sig.get("guard") is not None and sig["guard"] not in viol.get("guards", []):
             continue
